@@ -5,3 +5,26 @@ claim('C03', 'Coq theorems (model interpreters vs arithmetic specification) + ex
       'bijection. The model is the reference; the library is compared with the extracted model on exhaustive 8-bit domains, '
       'boundaries and PRNG samples, so a disagreement is itself the failing input. Floats, strings and composites are tied '
       'by correspondence only (stated as partial in the evidence).', 'DESIGN.md 6/C03')
+claim('C05', 'Coq theorem over all constructs (induction on con) + correspondence + sizeof/build/parse oracle',
+      'sizeof_nokey: for EVERY construct of the model (59 classes, any nesting), context and path, sizeof never reports a missing '
+      'key as KeyError/AttributeError - proved by induction on the construct syntax. Exactness of the answer (bytes advanced by '
+      'build and by parse with trailing data = sizeof) is decided by the oracle on the implementation over context-dependent '
+      'templates x key subsets and generated constructs, and the sizeof outcome is compared with the extracted model.', 'DESIGN.md 6/C05')
+claim('C08', 'Coq theorems for every inner construct and unbounded nesting depth + correspondence + independent region oracle',
+      'Region theorems for FixedSized / Prefixed(+-includelength) / NullStripped: the outer position and the bytes the inner construct '
+      'sees are fixed before it runs, for EVERY inner construct; tell_absolute_at_any_depth: by induction on the nest, Tell at any depth '
+      'reports the outermost absolute offset. NullTerminated/OffsettedEnd/ProcessXor nests are decided by correspondence and an '
+      'independent Python reading of each delimiter contract (random nests to depth 4, offsets 0..5).', 'DESIGN.md 6/C08')
+claim('C09', 'Coq theorems for every sub-construct + correspondence + isolation oracle',
+      'peek/pointer position theorems (parse and build), select_first_success (failed alternatives leave no trace), greedy-range step '
+      'lemmas, ExplicitError escapes - for EVERY sub-construct, context and input. The library is compared with the extracted model and '
+      'with its own members parsed in isolation (Peek, Select, Optional, GreedyRange(+discard), Pointer incl. target = position, Union).',
+      'DESIGN.md 6/C09')
+claim('C13', 'Coq theorems for every sub-construct / any nesting depth + correspondence + exhaustive one-byte oracles',
+      'const_parse_iff, const_build, validator symmetry (OneOf/NoneOf/ExprValidator/Check), Enum/Mapping lemmas, and '
+      'explicit_escapes_any_nest (induction on the nest) hold for every sub-construct. The oracles sweep all 256 values of one-byte '
+      'domains, every label spelling, falsy wrong constants, multi-bit flag masks.', 'DESIGN.md 6/C13')
+claim('C14', 'Coq theorems for every inner construct + correspondence + exhaustive single-bit corruption oracle',
+      'rawcopy_parse (value/offsets/length/data as re-read), rawcopy_final_position, checksum_detects/accepts/build for every inner '
+      'construct. The oracle checks data == stream slice at non-zero offsets and inside substreams, build from value == build from '
+      'data, build-then-parse of Checksum structs incl. stale digests, and every single-bit corruption of region and digest.', 'DESIGN.md 6/C14')
